@@ -36,6 +36,8 @@ func Failf(sig, format string, a ...interface{}) *Failure {
 // Ctx is one per property package.
 type Ctx struct {
 	Rec *stats.Recorder
+	// ProcessFields are case fields that describe settings fixed per process; a recorded violation carries them
+	ProcessFields map[string]string
 
 	mu     sync.Mutex
 	active map[string]stats.Finding // signature -> finding whose witness reproduced in this process
@@ -132,6 +134,21 @@ func (c *Ctx) Judge(t TB, test string, fl *Failure, cs interface{}) {
 		}
 		return
 	}
+	// settings that are fixed per process (server profile, compressor) travel with the case, so that the replay
+	// file reproduces in a process of its own
+	if len(c.ProcessFields) > 0 {
+		if b, err := json.Marshal(cs); err == nil {
+			var m map[string]interface{}
+			if json.Unmarshal(b, &m) == nil && m != nil {
+				for k, v := range c.ProcessFields {
+					if cur, ok := m[k].(string); !ok || cur == "" {
+						m[k] = v
+					}
+				}
+				cs = m
+			}
+		}
+	}
 	path := c.Rec.Violation(test, fl.Signature, fl.Detail, cs)
 	t.Fatalf("VIOLATION-CANDIDATE test=%s signature=%s replay=%s\n%s", test, fl.Signature, path, fl.Detail)
 }
@@ -172,6 +189,22 @@ func Replay(t *testing.T, cs interface{}) (*stats.Violation, bool) {
 		t.Fatalf("replay case: %v", err)
 	}
 	return v, true
+}
+
+// ReplayCaseString returns the string field name of the case in the replay file (VERIF_REPLAY_FILE), "" when
+// there is no replay file or no such field. For settings that are fixed per process (server profile,
+// compressor) and must therefore be known before the environment is built.
+func ReplayCaseString(name string) string {
+	v, err := stats.LoadReplay()
+	if err != nil || v == nil {
+		return ""
+	}
+	var m map[string]interface{}
+	if json.Unmarshal(v.Case, &m) != nil {
+		return ""
+	}
+	s, _ := m[name].(string)
+	return s
 }
 
 // ReplayAll runs every saved regression input /verif/replays/<property>-*.json through run
